@@ -18,6 +18,8 @@
 (*                  full name universe queries.                            *)
 (*  Mode "files":   sourceFile headers (with / without value) anywhere in a  *)
 (*                  class, own and foreign-class methods, context reset.   *)
+(*  Mode "ambig":   one class, <= MaxRecs entries sharing one obfuscated     *)
+(*                  name with originals p/q in every order.                *)
 (*  Mode "names":   class blocks with adversarially close obfuscated names *)
 (*                  (prefixes, '$' / '.' variants, non-ASCII, duplicates). *)
 (*  Mode "blocks":  2..3 class blocks (names may repeat) of <= 2 methods   *)
@@ -119,7 +121,15 @@ BlkClasses == {ClassAst(B("com.A"), B("a")), ClassAst(B("com.B"), B("b")), Class
 FileAlpha ==
   {SourceFileAst(B("F.kt")), SourceFileAst(B("G.java")), SourceFileAst(Synthetic), HeaderAst(B("sourceFile"), <<>>),
    EntryAst(<<>>, <<>>, <<>>, B("run"), B("m")), EntryAst(<<D(1), D(3)>>, <<D(5), D(7)>>, <<B("p.Q$R")>>, B("call"), B("m")),
+   EntryAst(<<>>, <<>>, <<B("Z$1")>>, B("zed"), B("m")),
    ClassAst(B("com.Other$In"), B("b"))}
+\* the class the file starts with: packaged inner class, or a class in the default package
+ClassA0 == ClassAst(B("Top$In$$Lambda0"), B("a"))
+
+\* ---- ambiguity alphabet (mode "ambig") ---------------------------------------------------------
+\* one class, <= MaxRecs entries that all share the obfuscated name m: method lookup must answer
+\* iff ALL of them carry the same original name (first = last is not enough)
+AmbigAlpha == {EntryAst(r, <<>>, <<>>, nm, B("m")) : r \in {<<>>, <<D(1), D(2)>>}, nm \in {B("p"), B("q")}}
 
 \* ---- adversarial class names (mode "names") -------------------------------------
 \* up to MaxRecs class blocks whose obfuscated names are close in byte order; each block has one
@@ -144,7 +154,8 @@ Init ==
   \/ Mode = "entries" /\ phase = "ctx" /\ lines = <<>>
   \/ Mode = "records" /\ phase = "recs" /\ lines = <<>>
   \/ Mode = "blocks" /\ phase = "b0" /\ lines = <<>>
-  \/ Mode = "files" /\ phase = "files" /\ lines = <<ClassA>>
+  \/ Mode = "files" /\ phase = "files" /\ lines \in {<<ClassA>>, <<ClassA0>>}
+  \/ Mode = "ambig" /\ phase = "ambig" /\ lines = <<ClassA>>
   \/ Mode = "names" /\ phase = "names" /\ lines = <<>>
 
 NextBlockPhase(p) == IF p = "b0" THEN "b1" ELSE IF p = "b1" THEN "b2" ELSE "b3"
@@ -167,6 +178,9 @@ Next ==
   \/ /\ phase = "files" /\ Len(lines) < MaxRecs + 1
      /\ \E r \in FileAlpha : lines' = Append(lines, r)
      /\ UNCHANGED phase
+  \/ /\ phase = "ambig" /\ Len(lines) < MaxRecs + 1
+     /\ \E r \in AmbigAlpha : lines' = Append(lines, r)
+     /\ UNCHANGED phase
   \/ /\ phase = "names" /\ Len(lines) < 2 * MaxRecs
      /\ \E n \in NameAlpha : lines' = lines \o NameBlock(n, Len(lines) \div 2)
      /\ UNCHANGED phase
@@ -174,7 +188,7 @@ Spec == Init /\ [][Next]_vars
 
 Recs(ls) == [k \in 1..Len(ls) |-> Denotes(ls[k])]
 
-Queries == SetToSeq(IF Mode \in {"entries", "files"} THEN QueriesEntries
+Queries == SetToSeq(IF Mode \in {"entries", "files", "ambig"} THEN QueriesEntries
                     ELSE IF Mode = "names" THEN QueriesNames ELSE QueriesRecords)
 
 Full == IF Mode = "entries" THEN lines \o OtherBlock ELSE lines
@@ -193,6 +207,7 @@ CoherenceHolds ==
 
 Emit ==
   IF lines = <<>> \/ lines = <<ClassA>> THEN PrintT("CASE " \o ToJson([queries |-> Queries]))
+  ELSE IF lines = <<ClassA0>> THEN TRUE
   ELSE (phase \notin {"ctx", "b1"}) => PrintT("CASE " \o ToJson(Case))
 Inv == CoherenceHolds /\ Emit
 =============================================================================
